@@ -282,6 +282,14 @@ func (e fixEvaluator) AddAt(op0, op1, opOut *rlwe.Ciphertext) {
 	e.r.AtLevel(level).Add(op0.Value[0], op1.Value[0], opOut.Value[0])
 }
 
+// RINGPNIL control: knows that P may be absent, dereferences RingP() anyway
+func (e fixEvaluator) BothRings(p rlwe.Parameters, levelP int, x ring.Poly) {
+	ringP := p.RingP().AtLevel(levelP)
+	if levelP > -1 {
+		ringP.NTT(x, x)
+	}
+}
+
 // DEGLOOP control: the last component is never negated
 func (e fixEvaluator) NegHigh(op0, opOut *rlwe.Ciphertext) {
 	for i := 1; i < op0.Degree(); i++ {
